@@ -33,7 +33,7 @@ type C16Case struct {
 var c16Counts = map[string]int{"quick": 400, "thorough": 10_000}
 
 // task kinds and their weights; C01big are 30..70 variable instances with many conflicts
-var c16Kinds = []string{"C01big", "C01big", "C01big", "C01tt", "C02", "C03", "C04", "C04", "C05", "C06", "C06", "C07", "C07", "C08", "C09", "C10", "C11", "C12", "C13", "C15", "C17", "C18"}
+var c16Kinds = []string{"C01big", "C01big", "C01big", "C01tt", "C02", "C03", "C04", "C04", "C05", "C06", "C06", "C07", "C07", "C08", "C09", "C10", "C11", "C12", "C13", "C14", "C14", "C15", "C17", "C18"}
 
 func c16Gen(r *gen.Rng, tier string, idx int) interface{} {
 	c := &C16Case{Procs: []int{2, 16, 16}[r.Intn(3)], Seed: r.U64()}
@@ -53,6 +53,9 @@ func c16Gen(r *gen.Rng, tier string, idx int) interface{} {
 		case "C06":
 			t.Prop = "C06"
 			t.Idx = c06Counts["quick"][0]*r.Intn(2) + r.Intn(100)
+		case "C17":
+			t.Prop = kind
+			t.Idx = c17ExhTotal("quick") + r.Intn(1000)
 		default:
 			t.Prop = kind
 			t.Idx = r.Intn(1000)
@@ -168,7 +171,7 @@ func init() {
 			InstallConcurrentHooks()
 			solver.VerifHooks.OnStep = c16OnStep
 		},
-		Rule: "batches of k in {2,4,8,16} data-independent tasks drawn from the scenarios of C01 (30..70 variable instances with hundreds of conflicts, and truth-table sized ones), C02..C13, C15, C17, C18 (Solve, Optimal with and without result channel, Minimize, Enumerate, CountModels, Assume rounds, maxsat API and WCNF, UnsatSubset and the four MUS methods, Unsat/UnsatChan, bf.Solve, bf.Dimacs, the parsers and printers), Verbose off. Each task is first run alone, then all tasks of the batch are released together in their own goroutines (GOMAXPROCS 2 or 16, optional Gosched/spin perturbation at hand-over and search-step points); every task is judged by its own reference oracle in both phases; the worker is built with -race and every report of the race detector that involves a gophersat frame is a violation (de-duplicated by accessing functions and outermost library entry points). " +
+		Rule: "batches of k in {2,4,8,16} data-independent tasks drawn from the scenarios of C01 (30..70 variable instances with hundreds of conflicts, and truth-table sized ones), C02..C15, C17, C18 (Solve with and without the cutting-planes strategy, Optimal with and without result channel, Minimize, Enumerate, CountModels, Assume rounds, maxsat API and WCNF, UnsatSubset and the four MUS methods, Unsat/UnsatChan, bf.Solve, bf.Dimacs, the parsers and printers), Verbose off. Each task is first run alone, then all tasks of the batch are released together in their own goroutines (GOMAXPROCS 2 or 16, optional Gosched/spin perturbation at hand-over and search-step points); every task is judged by its own reference oracle in both phases; the worker is built with -race and every report of the race detector that involves a gophersat frame is a violation (de-duplicated by accessing functions and outermost library entry points). " +
 			"non-trivial = batch in which conflict-analysis steps of different solvers alternated (counted by the per-step hook); distinct by batch",
 		Assumptions: []string{
 			"the reference oracles of the reused scenarios",
